@@ -6,6 +6,7 @@ import (
 	"testing"
 
 	bnet "github.com/bio-routing/bio-rd/net"
+	"github.com/bio-routing/bio-rd/protocols/bgp/types"
 	"github.com/bio-routing/bio-rd/route"
 	"github.com/bio-routing/bio-rd/routingtable"
 	"pgregory.net/rapid"
@@ -47,28 +48,60 @@ func c01Path(w, id int) *route.Path {
 	return &route.Path{Type: route.StaticPathType, StaticPath: &route.StaticPath{NextHop: nh.Ptr()}}
 }
 
+// c01BGPPath: four BGP paths of one neighbour. 0 is the base; 1 has another LOCAL_PREF; 2 and 3 tie with 0 in
+// every attribute the decision process looks at (Path.Equal says "same") and differ in the communities / an
+// unknown attribute (Path.Compare says "different"): the table has to keep them apart.
+func c01BGPPath(w, id int) *route.Path {
+	var nh, src bnet.IP
+	if w == 32 {
+		nh, src = bnet.IPv4FromOctets(192, 0, 2, 1), bnet.IPv4FromOctets(192, 0, 2, 254)
+	} else {
+		nh, src = bnet.IPv6(0x20010db800000000, 1), bnet.IPv6(0x20010db800000000, 254)
+	}
+	b := route.NewBGPPath()
+	b.BGPPathA.NextHop, b.BGPPathA.Source = nh.Ptr(), src.Ptr()
+	b.BGPPathA.LocalPref, b.BGPPathA.EBGP = 100, true
+	b.ASPath = types.NewASPath([]uint32{64500, 64501})
+	b.ASPathLen = b.ASPath.Length()
+	switch id {
+	case 1:
+		b.BGPPathA.LocalPref = 200
+	case 2:
+		b.Communities = &types.Communities{64500<<16 | 7}
+	case 3:
+		b.UnknownAttributes = []types.UnknownPathAttribute{{Optional: true, Transitive: true, TypeCode: 200, Value: []byte{1}}}
+	}
+	return &route.Path{Type: route.BGPPathType, BGPPath: b}
+}
+
 // c01Table adapts routingtable.RoutingTable to the kit machine.
 type c01Table struct {
 	w     int
+	bgp   bool
 	rt    *routingtable.RoutingTable
 	paths [4]*route.Path
 	ids   map[*route.Path]int
 }
 
-func newC01Table(w int) *c01Table {
-	a := &c01Table{w: w, rt: routingtable.NewRoutingTable(), ids: map[*route.Path]int{}}
+func newC01Table(w int) *c01Table { return newC01TableOf(w, false) }
+
+func newC01TableOf(w int, bgp bool) *c01Table {
+	a := &c01Table{w: w, bgp: bgp, rt: routingtable.NewRoutingTable(), ids: map[*route.Path]int{}}
 	for i := range a.paths {
-		a.paths[i] = c01Path(w, i)
+		a.paths[i] = a.obj(i, true)
 		a.ids[a.paths[i]] = i
 	}
 	return a
 }
 
 func (a *c01Table) obj(id int, fresh bool) *route.Path {
-	if fresh {
-		return c01Path(a.w, id)
+	if !fresh {
+		return a.paths[id]
 	}
-	return a.paths[id]
+	if a.bgp {
+		return c01BGPPath(a.w, id)
+	}
+	return c01Path(a.w, id)
 }
 
 func (a *c01Table) routes(rs []*route.Route) []kit.Bits {
@@ -114,8 +147,10 @@ func c01RunTable(t *testing.T, w int) {
 	rapid.Check(t, func(t *rapid.T) {
 		c := rec.Case()
 		defer c.Done()
-		c.Logf("RoutingTable")
-		kit.RunPfxMachine(t, c, w, newC01Table(w), kit.PfxCaps{ReplaceAll: true, RemovePfx: true})
+		bgp := rapid.IntRange(0, 2).Draw(t, "bgp_paths") == 0
+		c.Logf("RoutingTable (BGP paths incl. decision-process ties: %v)", bgp)
+		c.ClassIf(bgp, "bgp_paths_with_ties")
+		kit.RunPfxMachine(t, c, w, newC01TableOf(w, bgp), kit.PfxCaps{ReplaceAll: true, RemovePfx: true})
 	})
 }
 
